@@ -210,6 +210,12 @@ def io_r(group, inputs, mode=None):
     return runexe(exe, [mode] if mode else (['C05'] if getattr(group, 'name', '').startswith('C05') else []))
 
 
+def keygen_r(group, inputs, kind):
+    """C07: the real key generators over 600 seeds, statistical oracle with the property's 8-sigma acceptance regions"""
+    exe = build('keygen_replay', LINEAR_SRC, stub_undefined=True)
+    return runexe(exe, [kind])
+
+
 def blind_r(group, inputs, fft):
     src = 'lwe-bootstrapping-functions-fft.cpp' if fft else 'lwe-bootstrapping-functions.cpp'
     extra = ['-DREPLAY_SRC="%s"' % os.path.join(LIB, src)] + (['-DREPLAY_FFT'] if fft else [])
@@ -230,7 +236,7 @@ def pairing_r(group, inputs):
 
 
 ROUTINES = {'numeric': numeric, 'woks': woks, 'lwe': lwe_r, 'poly': lwe_r, 'extract': lwe_r, 'decomp': decomp_r, 'tlwe': lwe_r,
-            'mult': mult_r, 'keyswitch': keyswitch_r, 'pairing': pairing_r, 'gadget': lwe_r, 'gate': gates_r, 'blind': blind_r, 'params': params_r, 'io': io_r, 'iotext': lambda g, i: io_r(g, i, 'C05text')}
+            'mult': mult_r, 'keyswitch': keyswitch_r, 'pairing': pairing_r, 'gadget': lwe_r, 'gate': gates_r, 'blind': blind_r, 'params': params_r, 'io': io_r, 'keygen': keygen_r, 'iotext': lambda g, i: io_r(g, i, 'C05text')}
 
 
 def run(name, group, inputs):
